@@ -388,6 +388,25 @@ def apply_op(idnt, op, log=None):
                     if options is not None:
                         idnt.preprocessing_options = options
                     idnt.apply_preprocessing()
+                elif route == "attr_inplace":
+                    # the curve's own attributes edited in place, then the
+                    # request with everything left out
+                    idnt.preprocessing[:] = steps
+                    if options is not None and \
+                            idnt.preprocessing_options is not options:
+                        po = idnt.preprocessing_options
+                        options = copy.deepcopy(options)
+                        for k_ in list(po):
+                            if k_ not in options:
+                                del po[k_]
+                        for k_, v_ in options.items():
+                            if isinstance(po.get(k_), dict) and \
+                                    isinstance(v_, dict):
+                                po[k_].clear()
+                                po[k_].update(v_)
+                            else:
+                                po[k_] = v_
+                    idnt.apply_preprocessing()
                 elif route == "fit_kw":
                     kw = {"preprocessing": steps}
                     if options is not None:
@@ -424,6 +443,22 @@ def apply_op(idnt, op, log=None):
                     new = cur
                 if key in ("segment", "optimal_fit_num_samples"):
                     new = cur       # must stay integral
+                if op.get("route") == "fit":
+                    idnt.fit_model(**{key: new})
+                else:
+                    idnt.fit_properties[key] = new
+            elif kind == "reorder":
+                # a dictionary setting passed again, same content, keys in
+                # another order (also on the nested level)
+                from nanite.fit import FP_DEFAULT
+                key = op["key"]
+                cur = idnt.fit_properties.get(key, FP_DEFAULT.get(key))
+
+                def rev(d):
+                    return {k_: rev(d[k_]) if isinstance(d[k_], dict)
+                            else copy.deepcopy(d[k_])
+                            for k_ in reversed(list(d))}
+                new = rev(cur) if isinstance(cur, dict) else cur
                 if op.get("route") == "fit":
                     idnt.fit_model(**{key: new})
                 else:
@@ -1042,6 +1077,7 @@ class CurveEngineC03:
             combos = [(route, k) for k in FIT_KEYS
                       for route in ("fit", "setfp")] + \
                 [("nudge", None), ("nudge", None), ("details", None),
+                 ("reorder", None),
                  ("emod", None), ("same_prep", None), ("getinit", None),
                  ("retype", None), ("retype", None), ("range0", None)]
             route, key = combos[index % len(combos)]
@@ -1054,6 +1090,12 @@ class CurveEngineC03:
                             "value": kw.get(key)})
             elif route == "nudge":
                 ops.append(gen_nudge(rng))
+            elif route == "reorder":
+                ops[-1] = {"op": "fit", "kw": {"method_kws": rng.choice(
+                    [{"max_nfev": 200, "ftol": 1e-9},
+                     {"xtol": 1e-9, "ftol": 1e-10, "max_nfev": 300}])}}
+                ops.append({"op": "reorder", "key": "method_kws",
+                            "route": rng.choice(["fit", "setitem"])})
             elif route == "retype":
                 ops.append({"op": "retype", "key": rng.choice(
                     ["weight_cp", "gcf_k", "optimal_fit_edelta"]),
@@ -1463,7 +1505,8 @@ def check_request(prop, idnt, cfg, op, outcome, i, steps, options,
     # into them during this call (the user may have set them before)
     # (not with a shared options dict: if the user assigned that very
     # object to the attribute earlier, the in-place edit shows there)
-    if where is None and route != "attr" and pre_attr is not None and \
+    if where is None and route not in ("attr", "attr_inplace") and \
+            pre_attr is not None and \
             not op.get("shared_options") and \
             idnt.preprocessing == steps and \
             idnt.preprocessing_options == options and \
@@ -1549,7 +1592,8 @@ class CurveEngineC06:
                 base.pop("fault", None)
                 base.pop("enum_faults", None)
                 base["route"] = rng.choice(["apply", "apply", "fit_kw",
-                                            "attr", "details"])
+                                            "attr", "details",
+                                            "attr_inplace"])
                 if rng.random() < 0.4 and len(base["steps"]) > 1:
                     # same step set, other legal order: another pipeline
                     if ops and ops[-1].get("steps") != base["steps"]:
@@ -1569,7 +1613,7 @@ class CurveEngineC06:
                 options = gen_options(rng, steps)
             op = {"op": "prep",
                   "route": rng.choice(["apply", "apply", "fit_kw", "attr",
-                                       "details"]),
+                                       "details", "attr_inplace"]),
                   "steps": steps, "options": options}
             if options is not None and rng.random() < 0.25:
                 op["shared_options"] = True
@@ -1606,6 +1650,19 @@ class CurveEngineC06:
                     op.pop(k_, None)
                 op["route"] = rng.choice(["apply", "fit_kw", "details"])
                 ops.append(op)
+                continue
+            if was_invalid and recent and rng.random() < 0.3:
+                # a rejected request, a plain fit (no pipeline given), and
+                # the last good pipeline again
+                ops.append(op)
+                ops.append({"op": "fit", "kw": {}})
+                again = copy.deepcopy(recent[-1])
+                for k_ in ("fault", "enum_faults", "fit_extra",
+                           "shared_options"):
+                    again.pop(k_, None)
+                again["route"] = rng.choice(["apply", "fit_kw", "details"])
+                ops.append(again)
+                recent.append(op)
                 continue
             if was_invalid and rng.random() < 0.4:
                 # what a user does next: fit on another axis (records the
@@ -2973,8 +3030,10 @@ def c10_apply(idnt, caller, op):
                     # the remembered attributes are edited in place to the
                     # new request, then the curve is asked to apply them
                     idnt.preprocessing[:] = steps
-                    if options is not None:
+                    if options is not None and \
+                            idnt.preprocessing_options is not options:
                         po = idnt.preprocessing_options
+                        options = copy.deepcopy(options)
                         for k_ in list(po):
                             if k_ not in options:
                                 del po[k_]
